@@ -6,6 +6,7 @@ import (
 	"math/rand/v2"
 	"strconv"
 	"strings"
+	"sync"
 	"time"
 
 	"github.com/jirenius/go-res/resprot"
@@ -220,12 +221,24 @@ func (SendReqScenario) Execute(sim *sched.Sim, ci interface{}, prop string, race
 	var got resprot.Response
 	var gotAt time.Duration
 	var exts [][]time.Duration
+	var extMu sync.Mutex
+	var extsAtReturn [][]time.Duration
+	foreignCB := 0
 	start := time.Now()
 	cbs := make([]func(time.Duration), c.Callbacks)
 	exts = make([][]time.Duration, c.Callbacks)
 	for i := range cbs {
 		i := i
-		cbs[i] = func(d time.Duration) { exts[i] = append(exts[i], d) }
+		cbs[i] = func(d time.Duration) {
+			extMu.Lock()
+			exts[i] = append(exts[i], d)
+			if t := sim.Current(); t == nil || t.Name != "requester" {
+				// told from a goroutine of its own: nothing orders the
+				// notification before the return of SendRequest any more
+				foreignCB++
+			}
+			extMu.Unlock()
+		}
 	}
 	task := sim.Go("requester", func() {
 		var req interface{}
@@ -238,6 +251,15 @@ func (SendReqScenario) Execute(sim *sched.Sim, ci interface{}, prop string, race
 		start = time.Now()
 		got = resprot.SendRequest(conn, "call.test.model.set", req, time.Duration(c.TimeoutMs)*time.Millisecond, cbs...)
 		gotAt = time.Since(start)
+		// what the callbacks have been told by the time the call returns
+		extMu.Lock()
+		for i := range exts {
+			exts[i] = append([]time.Duration(nil), exts[i]...)
+		}
+		atReturn := make([][]time.Duration, len(exts))
+		copy(atReturn, exts)
+		extsAtReturn = atReturn
+		extMu.Unlock()
 		sim.Yield("call.return", "sendrequest")
 	})
 	inbox := func() *simconn.Sub {
@@ -321,6 +343,9 @@ func (SendReqScenario) Execute(sim *sched.Sim, ci interface{}, prop string, race
 		}
 		cls, sig := "", ""
 		extOK := true
+		extMu.Lock()
+		exts = extsAtReturn
+		extMu.Unlock()
 		for i := range exts {
 			if fmt.Sprint(exts[i]) != fmt.Sprint(want.Ext) && !(len(exts[i]) == 0 && len(want.Ext) == 0) {
 				extOK = false
@@ -342,6 +367,12 @@ func (SendReqScenario) Execute(sim *sched.Sim, ci interface{}, prop string, race
 				gotDesc += " " + got.Error.Code
 			}
 			h.Violate("C19", cls, sig, fmt.Sprintf("SendRequest returned %s result=%s rid=%q at %v (inbox messages dropped on a full channel: %d); %s", gotDesc, got.Result, got.Resource, gotAt, slow, desc))
+		}
+		extMu.Lock()
+		fcb := foreignCB
+		extMu.Unlock()
+		if fcb > 0 {
+			h.Violate("C19", "extension-callbacks", "other-goroutine", fmt.Sprintf("%d extension callbacks were called from a goroutine other than the one in SendRequest, so they are not ordered before its return; %s", fcb, desc))
 		}
 		if !extOK && ok {
 			h.Violate("C19", "extension-callbacks", "", fmt.Sprintf("callbacks got %v, expected %v each; %s", exts, want.Ext, desc))
